@@ -56,7 +56,7 @@ def _simple_actor(rng, name, fail=False, ret=None, length=None):
         ops.append({"op": "sleep", "d": rng.choice([0.25, 0.5, 1, 2])})
         ops.append({"op": "now"})
     if fail:
-        ops.append({"op": "raise", "type": rng.choice(["E", "A", "K"])})
+        ops.append({"op": "raise", "type": rng.choice(["E", "A", "K", "Z"])})
     spec = {"name": name, "ops": ops}
     if ret is not None:
         spec["ret"] = ret
